@@ -321,6 +321,42 @@ class Refuse(Harness):
         return out
 
 
+class Accessors(Harness):
+    """the catalog reports per-patch quantities in patch-id order, whatever order the patches were loaded in"""
+
+    functions = (Catalog.__iter__, Catalog.get_centers, Catalog.get_radii, Catalog.get_num_records, Catalog.get_sum_weights,
+                 Catalog.__getitem__, Catalog.__len__)
+    modules = ()
+    xval = False
+
+    def __init__(self, N):
+        self.N = N
+        self.name = "accessors.N%d" % N
+        self.bounds = "%d patches with non-contiguous ids; the order in which they were inserted (= worker completion order) chosen by the engine" % N
+
+    def make_inputs(self, eng):
+        perms = list(itertools.permutations(range(self.N)))
+        return {"perm": list(perms[eng.choose(len(perms), "insertion_order")])}
+
+    def concrete_inputs(self, m, inp):
+        return dict(inp)
+
+    def body(self, inp):
+        ids = [0, 2, 5, 7][: self.N]
+        mk = lambda i: types.SimpleNamespace(meta=types.SimpleNamespace(
+            num_records=10 + i, sum_weights=0.5 + i, center=AngularCoordinates(np.array([[0.1 * (i + 1), 0.01 * i]])),
+            radius=AngularDistances(np.array([0.001 * (i + 1)]))), pid=i)
+        cat = Catalog.__new__(Catalog)
+        cat.cache_directory = None
+        cat._patches = {ids[k]: mk(ids[k]) for k in inp["perm"]}
+        return [Check("iteration_sorted", cond=(list(cat) == ids and list(cat.keys()) == ids and [p.pid for p in cat.values()] == ids)),
+                Check("num_records", cond=(cat.get_num_records() == tuple(10 + i for i in ids))),
+                Check("sum_weights", cond=(cat.get_sum_weights() == tuple(0.5 + i for i in ids))),
+                Check("centers", cat.get_centers().data, np.array([[0.1 * (i + 1), 0.01 * i] for i in ids]), tol=0),
+                Check("radii", cat.get_radii().data, np.array([0.001 * (i + 1) for i in ids]), tol=0),
+                Check("getitem_len", cond=(len(cat) == self.N and all(cat[i].pid == i for i in ids)))]
+
+
 class RefuseZeroRadius(Harness):
     """single-object patches have radius exactly 0 (d/0 = inf is outside the real-number model): concrete sentinels"""
 
@@ -363,7 +399,7 @@ class RefuseZeroRadius(Harness):
 
 
 def harnesses(tier):
-    hs = [MetaCompute(3), LoadPatches(3), Refuse(2), RefuseZeroRadius()]
+    hs = [MetaCompute(3), LoadPatches(3), Refuse(2), RefuseZeroRadius(), Accessors(3)]
     if tier == "thorough":
         hs += [MetaCompute(5), MetaMeanUsed(), Refuse(3)]
     hs += [MetaCompute(1, wrong="mean"), LoadPatches(2, wrong="shift"), Refuse(2, wrong="always")]
